@@ -1,6 +1,7 @@
 """Shared body of the C03 and C04 checks (one LTS, one harness, two property oracles)."""
 import json
 import os
+import re
 
 from vlib import sched
 
@@ -95,7 +96,9 @@ def pack(res):
     c["choices"] = res["choices"]
     c.pop("spurious", None)
     ev = [" ".join(ev) for _, ev in res["steps"] if sched.fan_event(ev) is not None]
-    return {"case": c, "monitors": res["M"], "projected_trace": ev[:400],
+    if res.get("crash"):
+        c = dict(res["case"])         # the trace of a crashed run is lost; the case itself (seeded) reproduces it
+    return {"case": c, "monitors": res["M"], "projected_trace": ev[:400], "crash": res.get("crash"),
             "how": "harness/sched: `sched_run <case file>` (vlib.sched.case_text(case)); "
                    "choices = thread to run at each scheduling point, sD = spurious wake-up of the dispatcher"}
 
@@ -137,7 +140,6 @@ def explore_all(ctx, prop, exe_san, exe, variant, cov, dist):
     rng = ctx.rng
     distinct = set()
     pending = []          # offenders, reported smallest first so that the replay is a small one
-    state = {"acc": []}
 
     def consume(results):
         """monitors + acceptor for a list of runs"""
@@ -167,32 +169,28 @@ def explore_all(ctx, prop, exe_san, exe, variant, cov, dist):
                 if p in (prop, "*"):
                     pending.append((len(r["steps"]), sig, what, r))
 
-    # 1. corpus + random schedules
-    nrand = 2500 if ctx.quick() else 60000
-    nmax = 8 if ctx.quick() else 40
-    cases = corpus_cases()
-    for _ in range(nrand):
-        c = gen_case(rng, nmax)
-        cases.append(c)
-        dist["strategy"][c["strategy"]] = dist["strategy"].get(c["strategy"], 0) + 1
-        dist["yield"][c["yield"]] = dist["yield"].get(c["yield"], 0) + 1
-        dist["N"][str(len(c["hosts"]))] = dist["N"].get(str(len(c["hosts"])), 0) + 1
-        dist["with_spurious"] += 1 if c.get("spurious") else 0
-    CH = 2000
-    for i in range(0, len(cases), CH):
-        chunk = cases[i:i + CH]
-        # every fourth case runs under ASan/UBSan, the rest on the plain build (same sources)
-        res = sched.run_many(exe_san, chunk[::4], ctx.scratch) + \
-            sched.run_many(exe, [c for j, c in enumerate(chunk) if j % 4], ctx.scratch)
-        consume(res)
-        ctx.log("random schedules: %d/%d" % (min(i + CH, len(cases)), len(cases)))
+    def new_violations():
+        """offending runs that no open finding explains (enough of them => stop exploring, report)"""
+        k = 0
+        for _, sig, _, _ in pending:
+            if not any(f["property"] == ctx.prop and f.get("status") == "open" and re.fullmatch(f["signature"], sig)
+                       for f in ctx.findings.get("findings", [])):
+                k += 1
+        return k
 
-    # 2. exhaustive exploration of tiny configurations
+    def enough():
+        return new_violations() >= 30 or dist["rejects"] >= 200
+
+    # 1. corpus, then exhaustive exploration of tiny configurations (gives the smallest failing schedules)
+    consume(sched.run_many(exe_san, corpus_cases(), ctx.scratch))
     if ctx.quick():
-        configs = [(2, 1, 1)]
+        configs = [(1, 1, 2), (2, 1, 2), (2, 2, 1), (3, 2, 0)]
     else:
-        configs = [(1, 1, 2), (2, 1, 2), (2, 2, 2), (3, 1, 1), (3, 2, 1), (3, 3, 1), (3, 2, 0), (2, 3, 1)]
+        configs = [(1, 1, 2), (1, 2, 2), (2, 1, 2), (2, 2, 2), (2, 3, 2), (3, 1, 2), (3, 2, 2), (3, 3, 1), (3, 4, 1),
+                   (4, 2, 1)]
     for n, f, msp in configs:
+        if enough():
+            break
         base = {"fanout": f, "hosts": [{"name": "x%d" % i} for i in range(n)], "yield": "fan", "inline": 0,
                 "budget": 2000}
         buf = []
@@ -202,13 +200,39 @@ def explore_all(ctx, prop, exe_san, exe, variant, cov, dist):
             if len(buf) >= 1500:
                 consume(buf[:])
                 del buf[:]
-        st = sched.explore(exe, ctx.scratch, base, msp, on, max_runs=30000 if ctx.quick() else 600000)
+        st = sched.explore(exe, ctx.scratch, base, msp, on, max_runs=30000 if ctx.quick() else 600000,
+                           stop=lambda: len(pending) >= 2000)
         consume(buf)
         st.update({"N": n, "fanout": f, "max_spurious": msp})
         dist["dfs"].append(st)
         ctx.log("exhaustive N=%d f=%d spurious<=%d: %s" % (n, f, msp, st))
         if not st["complete"]:
             ctx.notes.append("DFS N=%d f=%d cut off at %d runs" % (n, f, st["runs"]))
+
+    # 2. random schedules
+    nrand = 4000 if ctx.quick() else 60000
+    nmax = 8 if ctx.quick() else 40
+    cases = []
+    for _ in range(nrand):
+        c = gen_case(rng, nmax)
+        cases.append(c)
+    CH = 1000
+    for i in range(0, len(cases), CH):
+        if enough():
+            ctx.log("enough offending runs; exploration stopped early")
+            break
+        chunk = cases[i:i + CH]
+        for c in chunk:
+            dist["strategy"][c["strategy"]] = dist["strategy"].get(c["strategy"], 0) + 1
+            dist["yield"][c["yield"]] = dist["yield"].get(c["yield"], 0) + 1
+            dist["N"][str(len(c["hosts"]))] = dist["N"].get(str(len(c["hosts"])), 0) + 1
+            dist["with_spurious"] += 1 if c.get("spurious") else 0
+        # every fourth case runs under ASan/UBSan, the rest on the plain build (same sources)
+        res = sched.run_many(exe_san, chunk[::4], ctx.scratch) + \
+            sched.run_many(exe, [c for j, c in enumerate(chunk) if j % 4], ctx.scratch)
+        consume(res)
+        if (i // CH) % 5 == 4 or i + CH >= len(cases):
+            ctx.log("random schedules: %d/%d" % (min(i + CH, len(cases)), len(cases)))
 
     pending.sort(key=lambda t: t[0])
     seen = {}
